@@ -2,6 +2,7 @@
 
 mod c05;
 mod c08;
+mod c08_real;
 mod c12;
 
 use dex::{
@@ -101,6 +102,7 @@ fn main() {
 				c12::run(args.tier, args.seed)
 			}
 		}
+		"C08" if args.rest.get(1).map(String::as_str) == Some("--real-leg") => c08_real::main_leg(args.tier == Tier::Quick),
 		"C08" => {
 			let h = C08;
 			if args.rest.get(1).map(String::as_str) == Some("--count") {
@@ -108,7 +110,48 @@ fn main() {
 				return;
 			}
 			let rule = "every job state class (and every pair of classes at the default schedule) x quit manner x grace x child reaction x (quit in the creating action | later), and the CLI's handler under interrupt/terminate events; every ENV order of quit trigger, child exits and ticks, times every deviation set within the pass bound; non-trivial = at least one process was started; distinct = distinct canonical observation logs";
-			let c = orch::dex_main(&h, &args, &[prop], assumptions, rule);
+			let tier = args.tier;
+			let post: Option<orch::Post<'_>> = if args.worker.is_none() && args.replay.is_none() {
+				Some(Box::new(move |cov, viols| {
+					// real-process leg in a subprocess (it installs signal handlers)
+					let exe = std::env::current_exe().expect("exe");
+					let out = std::process::Command::new(exe).args(["C08", "--real-leg", "--tier", tier.name()]).output();
+					let Ok(o) = out else {
+						cov.insert("real_process_leg".into(), serde_json::json!("not run"));
+						return;
+					};
+					let text = String::from_utf8_lossy(&o.stdout).to_string();
+					let mut cases = vec![];
+					for l in text.lines().filter(|l| l.starts_with("REAL case=")) {
+						let name = l.split_whitespace().find_map(|t| t.strip_prefix("case=")).unwrap_or("?").to_string();
+						let ok = l.contains(" ok=true ");
+						let detail = l.split(" detail=").nth(1).unwrap_or("").to_string();
+						cases.push(serde_json::json!({"case": name, "ok": ok, "detail": detail}));
+						if !ok {
+							if detail.starts_with("machinery:") {
+								eprintln!("MACHINERY-WARNING property=C08 real-process case {name}: {detail}");
+								continue;
+							}
+							let what = if detail.contains("still alive") { "process-left-behind" } else { "main-task-late-or-failed" };
+							viols.push(orch::ViolationRec {
+								property: "C08".into(),
+								key: format!("C08/real/{what}/{name}"),
+								detail,
+								harness: "h-cli/c08-real".into(),
+								scenario: serde_json::json!({"real_case": name}),
+								bounds: None,
+								choices: vec![],
+								log: vec![],
+								count: 1,
+							});
+						}
+					}
+					cov.insert("real_process_leg".into(), serde_json::json!({"note": "complete over the scenario matrix, not over OS schedules", "cases": cases}));
+				}))
+			} else {
+				None
+			};
+			let c = orch::dex_main_with(&h, &args, &[prop], assumptions, rule, post);
 			let _ = std::fs::remove_dir_all(c05::scratch_dir());
 			c
 		}
